@@ -147,6 +147,13 @@ def hash_obligations():
             if shape_ok:
                 for el in rets[0].elts:
                     pth = _path_of(el) if isinstance(el, ast.Attribute) else (_path_of(el.func) + '()' if isinstance(el, ast.Call) and isinstance(el.func, ast.Attribute) and _path_of(el.func) and not el.args else None)
+                    # repr(self.X) / self.X.hex(): injective text of a float attribute (and, unlike the float itself, not subject to
+                    # CPython's numeric hash collisions such as hash(-1.0) == hash(-2.0))
+                    if pth is None and isinstance(el, ast.Call) and isinstance(el.func, ast.Name) and el.func.id == 'repr' and len(el.args) == 1 \
+                            and isinstance(el.args[0], ast.Attribute):
+                        pth = _path_of(el.args[0])
+                    if pth is not None and pth.endswith('.hex()'):
+                        pth = pth[:-len('.hex()')]
                     plain[ast.unparse(el)] = pth
             for a in attrs:
                 want = PROJECTIONS.get((cname, a), a)
@@ -267,4 +274,41 @@ def memo_coherence_obligations():
         obs.append(_mk('vform:VForm:memoized-hash-coherent[%02d:%s]' % (k, spec['expr'][:30]), ok,
                        'after hash() either the form rejects add() or hash() reflects the change', detail, src='def add'))
         obs[-1].backend = 'executed on the real class'
+    return obs, None
+
+
+
+# ---- numeric keys: CPython's hash is not injective on numbers ------------------------------------------------------------------------
+# hash(-1) == hash(-2) (for ints and floats alike: -1 is the C-level error value), and floats are hashed modulo 2**61 - 1.  The injectivity
+# argument above ("equal hash => equal attribute") therefore needs every numeric attribute to enter the key in a collision-free form.
+_COLLIDING = [(-1.0, -2.0), (0.0, 2305843009213693951.0), (1.0, 2305843009213693952.0), (-1.0, 2305843009213693950.0 * -1 - 1.0)]
+
+
+def numeric_key_obligations():
+    """executed on the real classes: constants that collide under CPython's numeric hash still get different expression hashes, and forms
+    differing only in such a constant get different VForm hashes (the in-process compile cache is keyed by that hash)."""
+    from contracts import vform_rewrite as R
+    m = R.vform_module()
+    obs = []
+    for (a, b) in _COLLIDING:
+        if hash(a) != hash(b) or a == b:
+            continue        # (not a collision on this interpreter)
+        ea, eb = m.ConstExpr(a), m.ConstExpr(b)
+        ok = ea.hash(()) != eb.hash(())
+        obs.append(_mk('vform:ConstExpr:numeric-key[%r|%r]' % (a, b), ok, 'constants with hash(a) == hash(b) in CPython get different expression hashes',
+                       'ConstExpr(%r).hash(()) == ConstExpr(%r).hash(()) == %r: hash_key %r vs %r' % (a, b, ea.hash(()), ea.hash_key(), eb.hash_key()), src='class ConstExpr'))
+        obs[-1].backend = 'executed on the real class'
+
+        def form(c):
+            vf = m.VForm(2)
+            u, v = vf.basisfuns()
+            vf.add(m.as_expr(c) * u * v * m.dx)
+            return vf
+        ha, hb = form(a).hash(), form(b).hash()
+        obs.append(_mk('vform:VForm:numeric-key[%r|%r]' % (a, b), ha != hb, 'forms differing only in such a constant get different VForm hashes',
+                       'VForm hash of %r*u*v*dx equals that of %r*u*v*dx (%r): compile_vform() would hand out the first assembler for the second form' % (a, b, ha),
+                       src='def hash(self)'))
+        obs[-1].backend = 'executed on the real class'
+    if not obs:
+        raise KeyError('no numeric hash collision available on this interpreter')
     return obs, None
